@@ -298,6 +298,8 @@ class OpsMixin:
 
     def op_unlock(self, step, issuer):
         pr = self.pools[step["pool"]]
+        if pr.closing:
+            return  # unlocking in the middle of gather_and_close() is outside every property's scope
         was = pr.locked
         snap = self.snapshot(pr)
         self.ev("op_call", "unlock", pr.idx)
@@ -395,6 +397,7 @@ class OpsMixin:
                 t.unbegun_cancelled = True
                 self.triggers.add("T.cancel_unbegun")
                 self.ev("cancel_unbegun", t.pool.idx, t.tid)
+                self._advance(t)
             return
         if t.pending:
             return
@@ -689,10 +692,7 @@ class OpsMixin:
             self.triggers.add("T.lock_midspawn")
         dead_unstarted = False
         try:
-            for m in pr.obj._meta_tasks_cancelled:
-                import inspect
-                if not m.done() and inspect.getcoroutinestate(m.get_coro()) == "CORO_CREATED":
-                    dead_unstarted = True
+            dead_unstarted = bool(pr.obj._meta_tasks_cancelled)
         except Exception:  # noqa: BLE001
             pass
         if dead_unstarted:
